@@ -233,6 +233,18 @@ func cfgLoadMain(args []string) {
 			compete = compete || cnt >= 2
 			plans[i] = p
 		}
+		// every sixth case without a configuration file (Load / LoadFromViper take none), every twelfth also without flags
+		if it%6 == 5 {
+			for i := range plans {
+				plans[i].file = false
+				if it%12 == 11 {
+					plans[i].flag, plans[i].idleFlag = false, false
+				}
+				if !(plans[i].flag || plans[i].env || plans[i].def) {
+					plans[i].def = true
+				}
+			}
+		}
 		// model: environment names and winners
 		var lines []string
 		for i, f := range cfgFields {
@@ -258,6 +270,7 @@ func cfgLoadMain(args []string) {
 		var yaml strings.Builder
 		tree := map[string]interface{}{}
 		session := viper.New()
+		boundFlags := 0
 		flags := pflag.NewFlagSet("t", pflag.ContinueOnError)
 		var envSet []string
 		var cli []string
@@ -324,7 +337,14 @@ func cfgLoadMain(args []string) {
 				if p.flag {
 					cli = append(cli, "--"+fname+"="+vFlag)
 				}
-				_ = config.BindFlagToEnv(session, prefix, strings.ToUpper(prefix+"_"+strings.Join(f.path, "_")), flags.Lookup(fname))
+				if it%2 == 1 {
+					// the multi-flag binding, with one flag: same meaning
+					_ = config.BindFlagsToEnv(session, prefix, strings.ToUpper(prefix+"_"+strings.Join(f.path, "_")), flags.Lookup(fname))
+					boundFlags++
+				} else {
+					_ = config.BindFlagToEnv(session, prefix, strings.ToUpper(prefix+"_"+strings.Join(f.path, "_")), flags.Lookup(fname))
+					boundFlags++
+				}
 				if p.idleFlag {
 					caseParts = append(caseParts, fmt.Sprintf("%s:idle-flag(default=%q)", key, idleDefault))
 				}
@@ -374,7 +394,18 @@ func cfgLoadMain(args []string) {
 			_ = os.WriteFile(cfgFile, []byte(yaml.String()), 0o644)
 		}
 		loaded := &cfgTop{}
-		lerr := config.LoadFromEnvironment(session, prefix, loaded, defaults, cfgFile)
+		var lerr error
+		switch {
+		case cfgFile == "" && boundFlags == 0:
+			lerr = config.Load(prefix, loaded, defaults) // its own viper session: only without bound flags
+			rep.Hist("entry:Load")
+		case cfgFile == "":
+			lerr = config.LoadFromViper(session, prefix, loaded, defaults)
+			rep.Hist("entry:LoadFromViper")
+		default:
+			lerr = config.LoadFromEnvironment(session, prefix, loaded, defaults, cfgFile)
+			rep.Hist("entry:LoadFromEnvironment")
+		}
 		for _, e := range envSet {
 			os.Unsetenv(e)
 		}
